@@ -12,6 +12,7 @@ import JanetModel.Parse.Insert
 import JanetModel.Parse.Latch
 import JanetModel.Parse.InsertPure
 import JanetModel.Parse.CapLemmas
+import JanetModel.Parse.EofClean
 
 namespace JanetModel.Props.C11
 open JanetModel.Parse JanetModel.PP JanetModel.Gen.Parse
@@ -601,5 +602,26 @@ theorem state_query_scratch_in_bounds (k : Caps) (p : Parser) (h : CapOK k p) :
 
 example : ([OpK.byte 40, .byte 34, .byte 97, .state, .byte 98, .clone, .byte 99, .insert .nil [120, 121, 122], .eof].foldl
     (runOpK (fun _ => none)) ⟨Caps.init, Parser.init⟩).k = ⟨6, 3, 0⟩ := by decide
+
+/-- ★ the clean dichotomy: `janet_parser_eof` after ANY byte string fed to a fresh parser ends EITHER with no error and exactly the
+    root frame left (no pending form), OR with the error "unexpected end of source, D opened at line L, column C" naming the innermost
+    open frame.  (The newline `eof` feeds can latch an error only from a token or escape frame, and then at least two frames are
+    left: `loop_newline_error`, which runs `WF` along the inner loop via `WF_step`.) -/
+theorem eof_clean_or_innermost (scan : List B → Option String) (bs : List B) :
+    let p := (feed scan Run.init bs).p
+    ((eof scan p).error = none ∧ (eof scan p).states.length = 1 ∧ status (eof scan p) = .dead) ∨
+    (∃ f R, (consumeRaw scan p 10).states = f :: R ∧ R ≠ [] ∧ (eof scan p).error = some (eofMessage f) ∧ status (eof scan p) = .error) := by
+  intro p
+  have hlive := position_function_of_bytes scan bs
+  have hwf : WF p := WF_feed scan bs WF_init
+  have hcd : checkDead p = none := by simp [checkDead, p, hlive.2.1, hlive.2.2]
+  have hfl := (eof_outcome scan p hcd).2.1
+  rcases eof_clean scan p hwf hlive.2.1 hlive.2.2 with ⟨h1, h2⟩ | ⟨f, R, h1, h2, h3⟩
+  · left
+    refine ⟨h1, h2, ?_⟩
+    unfold status
+    simp [h1, hfl]
+  · right
+    exact ⟨f, R, h1, h2, h3, (status_error_iff _).mpr (by simp [h3])⟩
 
 end JanetModel.Props.C11
